@@ -172,6 +172,10 @@ def normalize_hostname(hostname, normalize_amp=True):
 
 def get_normalized_hostname(url, normalize_amp=True, infer_redirection=True):
     if infer_redirection:
+        # NOTE: same cleaning as `normalize_url` before inferring redirections
+        if not isinstance(url, SplitResult):
+            url = CONTROL_CHARS_RE.sub("", url).strip()
+
         url = resolve(url)
 
     if isinstance(url, SplitResult):
@@ -250,8 +254,10 @@ def normalize_url(
     """
     original_url_arg = url
 
+    # NOTE: cleaning first, lest surrounding whitespace hides the protocol of
+    # the url from the redirection inference (the target is cleaned below)
     if infer_redirection:
-        url = resolve(url)
+        url = resolve(CONTROL_CHARS_RE.sub("", url).strip())
 
     url = CONTROL_CHARS_RE.sub("", url)
     url = url.strip()
